@@ -15,20 +15,20 @@ NA = {
 PARTIAL = "the quantifier contains 'programs': decided over all tapes, fault plans, driver schedules and probe histories the seeded search reaches on a stated program family (fixed catalogue + seeded compositions); the program family itself is sampled workload, not decided"
 
 CLAIMS = {
-    "C01": ("E1", "twin-module differential (untouched twin vs instrumented twin) under seeded environment tapes, k-th-interaction fault plans, generator driving schedules and probe push/pop histories", PARTIAL),
-    "C02": ("E1", "seeded history simulation; probe stream compared with the traced twin's binding history (M-py) through the selector model M-sel, with faults putting bindings on exceptional paths", PARTIAL),
-    "C03": ("E1", "scheduler-produced call trees (tape-driven dispatcher actors: recursion, re-entry, raising calls); events compared with M-sel embeddings over the traced twin's live stacks", "decided over the call trees, tapes and fault plans the seeded search reaches on the dispatcher family A-D/M/S and seeded chain/sibling selectors up to depth 3"),
-    "C04": ("E1", "seeded activation orders of overriding and observing probes / overlays; call compared with the traced twin whose bindings are substituted by the model's bind hook", PARTIAL),
-    "C05": ("E1", "seeded lifecycle histories (non-LIFO global probes, blocks left by exception, failing completion) with M-life invariants after every operation", "decided over the operation histories the seeded search reaches (bounded length, 2-4 probes over the dispatcher family)"),
-    "C06": ("E1", "seeded control-flow tapes, faults at every environment interaction, generator next/send/throw/close/drop schedules and collector-driven finalisation; merged meta-event stream compared with the traced twin", "decided over the paths, driving sequences and collector schedules the seeded search reaches on the catalogue functions"),
-    "C07": ("E1", "scheduler-produced call trees incl. recursive and raising outermost calls; total records compared with M-sel total mode", PARTIAL),
-    "C08": ("E2", "thread-schedule simulation: real threads under a baton scheduler, pre-emption at line/opcode boundaries of the tooling and call-entry code (random, PCT, targeted), per-thread sequential model", "decided over the interleavings the seeded schedulers reach (pre-emption bound 3 quick / 5 thorough, 2-3 threads); a switch inside a C call is out of reach"),
-    "C09": ("E1", "seeded histories of overlay enter/leave, generator create/next/close/drop, collector runs and driver calls, at top level and inside an instrumented driver; events vs M-sel with suspended activations off the stack, handler collection vs M-life", "decided over the histories the seeded search reaches (1-2 generators at top level, 2 inside the driver actor)"),
+    "C01": ("E1", "twin-module differential (untouched twin vs instrumented twin) under seeded environment tapes, k-th-interaction fault plans, generator driving schedules (next/send/throw/close/drop, probes leaving while the generator exists) and probe push/pop histories", PARTIAL),
+    "C02": ("E1", "seeded history simulation; probe stream compared with the traced twin's binding history (M-py) through the selector model M-sel, with faults putting bindings on exceptional paths, injected subscriber failures (modelled exactly), probes with identical selectors ending in any order, probes coming and going while a generator is suspended / thrown into", PARTIAL),
+    "C03": ("E1", "scheduler-produced call trees (tape-driven dispatcher actors: recursion, re-entry, raising calls, a caller that survives failures below it); events compared with M-sel embeddings over the traced twin's live stacks; injected subscriber failures of immediate and total probes modelled exactly", "decided over the call trees, tapes and fault plans the seeded search reaches on the dispatcher family A-D/E/M/S and seeded chain / sibling-tree selectors up to depth 3"),
+    "C04": ("E1", "seeded activation orders of overriding and observing probes / overlays (incl. overlays derived from one another, refused activations, tooling after an earlier probe, failing subscribers of overridable probes), ending in any order; call compared with the traced twin whose bindings are substituted by the model's bind hook", PARTIAL),
+    "C05": ("E1", "seeded lifecycle histories (non-LIFO global probes, blocks left by exception, failing completion, failing subscribers of immediate / total probes, activations refused for a bad variable or part-way through a selector) with M-life invariants after every operation", "decided over the operation histories the seeded search reaches (bounded length, 2-4 probes over the dispatcher family)"),
+    "C06": ("E1", "seeded control-flow tapes, faults at every environment interaction (incl. exceptions swallowed by context managers), injected subscriber failures on any event of the stream (modelled exactly), generator next/send/throw/close/drop schedules and collector-driven finalisation; merged meta-event stream compared with the traced twin", "decided over the paths, driving sequences and collector schedules the seeded search reaches on the catalogue functions"),
+    "C07": ("E1", "scheduler-produced call trees incl. recursive and raising outermost calls, refused activations, a failing subscriber while a nested call is wound up under a surviving caller; total records compared with M-sel total mode", PARTIAL),
+    "C08": ("E2", "thread-schedule simulation: real threads under a baton scheduler, pre-emption at line/opcode boundaries of the tooling and call-entry code (random, PCT, uniform step, targeted), multi-round thread scripts, environment faults in calls, activations refused in a thread, per-thread sequential model", "decided over the interleavings the seeded schedulers reach (pre-emption bound 3 quick / 5 thorough, 2-3 threads); a switch inside a C call is out of reach"),
+    "C09": ("E1", "seeded histories of overlay enter/leave, generator create/next/throw/close/drop, collector runs and driver calls, at top level and inside an instrumented driver, a failing subscriber of a total probe while a generator is wound up; events vs M-sel with suspended activations off the stack, handler collection vs M-life", "decided over the histories the seeded search reaches (1-2 generators at top level, 2 inside the driver actor)"),
     "C12": ("E1", "seeded loop tapes over a small integer box; events and overrides compared with the unconditioned model stream filtered by arithmetic reference predicates", PARTIAL + "; the 'for all integers in the box' half is sampled, not enumerated; throttle is not modelled"),
-    "C13": ("E1", "seeded call sequences over a population of receivers (plain, subclass, value-equal, unhashable, decorated, nested class, property) with class-wide and object-bound probes activated in seeded order", "decided over the populations, probe histories and call sequences the seeded search reaches"),
-    "C14": ("E1", "seeded probe histories by name / by reference with the codefind clock (fast = heap scan, slow = cache) and the collector as scheduled operations; every function's reference re-resolved after every operation", "decided over the histories the seeded search reaches on the placement module (top-level, method, nested class, closure + its factory, decorated, namesakes)"),
-    "C16": ("E1", "seeded instrumentation configurations (all / some / none of the variables, supplied or not) x paths x faults; call compared with the traced twin with the model's declaration hook; ABSENT scan of every result, log entry and event", PARTIAL),
-    "C17": ("E1", "seeded pipeline histories (stages before / after activation, reductions, failing subscriber, failing completion, re-activation attempts, interpreter-exit hook) with per-stage completion and reduction oracles", "decided over the operation histories the seeded search reaches"),
+    "C13": ("E1", "seeded call sequences over a population of receivers (plain, subclass, value-equal, unhashable, decorated, nested class, property, a method calling a plain helper) with class-wide and object-bound probes activated in seeded order, object-bound call paths next to a failing total probe", "decided over the populations, probe histories and call sequences the seeded search reaches"),
+    "C14": ("E1", "seeded probe histories by name / by reference (incl. activations refused because a function cannot be instrumented) with the codefind clock (fast = heap scan, slow = cache) and the collector as scheduled operations; every function's reference re-resolved after every operation", "decided over the histories the seeded search reaches on the placement module (top-level, method, nested class, closure + its factory, decorated, namesakes)"),
+    "C16": ("E1", "seeded instrumentation configurations (all / some / none of the variables; supplied always, conditionally or not; by overlays or overridable probes, with a failing subscriber) x paths x faults, on catalogue actors and generated programs with declarations dropped in; call compared with the traced twin with the model's declaration hook; ABSENT scan of every result, log entry and event; name errors asked again for what they expose after the probes are gone", PARTIAL),
+    "C17": ("E1", "seeded pipeline histories (stages before / after activation, reductions, failing subscriber, failing / interrupted completion, refused and repeated activation attempts, interpreter-exit hook) with per-stage completion and reduction oracles", "decided over the operation histories the seeded search reaches"),
 }
 
 PENDING = {}
@@ -81,7 +81,7 @@ def main():
                 "name": "E2",
                 "path": "sim/engine2.py",
                 "serves_properties": sorted(k for k, v in CLAIMS.items() if v[0] == "E2"),
-                "kind_free_text": "thread-schedule simulator: real threads, one baton, pre-emption points from sys.settrace line/opcode events, seeded scheduler (random, PCT, targeted)",
+                "kind_free_text": "thread-schedule simulator: real threads, one baton, pre-emption points from sys.settrace line/opcode events, seeded scheduler (random, PCT, uniform step, targeted), simulated locks",
             },
         ],
         "checks": checks,
